@@ -71,6 +71,23 @@ func guard(ev events, t string, f func()) (ok bool) {
 	return true
 }
 
+// waitOrPanic waits for wg; it gives up (false) when a guarded call has panicked, because other threads may
+// then block forever on a mutex the panicking call left locked.
+func waitOrPanic(wg *sync.WaitGroup) bool {
+	ch := make(chan struct{})
+	go func() { wg.Wait(); close(ch) }()
+	for {
+		select {
+		case <-ch:
+			return !panicked.Load()
+		case <-time.After(20 * time.Millisecond):
+			if panicked.Load() {
+				return false
+			}
+		}
+	}
+}
+
 // quiescence deadline: operations take microseconds; the deadline is only reached when something is
 // really stuck (it then becomes a monitor finding, so it is deliberately generous)
 var quiesceDeadline = 10 * time.Second
@@ -604,7 +621,9 @@ func stressRQ(nworkers int, rng *rand.Rand, ev events) {
 			guard(ev, "c", q.Close)
 		}()
 	}
-	pwg.Wait()
+	if !waitOrPanic(&pwg) {
+		return // a queue operation panicked (its mutexes may be left locked): the history ends here
+	}
 	finalize(q, ev, tr, threads, nworkers, closeCalled.Load, q.Close, func(d time.Duration) []string {
 		ch := make(chan struct{})
 		go func() { wg.Wait(); close(ch) }()
@@ -714,7 +733,9 @@ func stressDisp(nworkers int, rng *rand.Rand, ev events) {
 			d.SignalStop()
 		}()
 	}
-	pwg.Wait()
+	if !waitOrPanic(&pwg) {
+		return // a queue operation panicked (its mutexes may be left locked): the history ends here
+	}
 	finalize(q, ev, tr, threads, nworkers, closeCalled.Load, d.SignalStop, func(dl time.Duration) []string {
 		deadline := time.Now().Add(dl)
 		for {
